@@ -1,4 +1,10 @@
 import FFVerif.Props.C09
+import FFVerif.Props.C09Exp
+import FFVerif.Props.C09cCP
+import FFVerif.Props.C09EtmCP
+import FFVerif.Props.C09EtmCPLiou
+import FFVerif.Props.C09EtmChoi
+import FFVerif.Props.C10Shifts
 import FFVerif.Pins.pinBasisArrayFinalize
 import FFVerif.Pins.pinFourElementTraces
 import FFVerif.Pins.pinErrorTransferMatrix
@@ -12,6 +18,68 @@ import FFVerif.Pins.C09_cumulant_source_shape
 #print axioms FFVerif.C09.first_order_symmetric
 #print axioms FFVerif.C09.K_row_col_zero
 #print axioms FFVerif.C09.cumulant_real
+#print axioms FFVerif.C09.pow_row_col_zero
+#print axioms FFVerif.C09.sum_row_col_zero
+#print axioms FFVerif.C09.exp_row_col_unit
+#print axioms FFVerif.C09.K_row_col_zero_opt
+#print axioms FFVerif.C09.etm_trace_preserving_unital
+#print axioms FFVerif.C09.etm_sum_trace_preserving_unital
+#print axioms FFVerif.C09.etm_real_sum_trace_preserving_unital
+#print axioms FFVerif.C09.trace_preserving_iff_row
+#print axioms FFVerif.C09.unital_iff_col
+#print axioms FFVerif.C09.verdict_of_posSemidef
+#print axioms FFVerif.C09.verdict_false_of_eigenvalue
+#print axioms FFVerif.C09.choi_of_linear_map
+#print axioms FFVerif.C09.gks_generator_cCP
+#print axioms FFVerif.C09.lindblad_eq_gks
+#print axioms FFVerif.C09.lindblad_generator_cCP
+#print axioms FFVerif.C09.lindblad_cCP_verdict
+#print axioms FFVerif.C09.symmetrised_posSemidef
+#print axioms FFVerif.C09.cumulant_first_order_cCP
+#print axioms FFVerif.C09.cumulant_first_order_cCP_verdict
+#print axioms FFVerif.C09.second_order_unitary_part
+#print axioms FFVerif.C09.second_order_projected_choi_zero
+#print axioms FFVerif.C09.second_order_same_projected_choi
+#print axioms FFVerif.C09.cumulant_second_order_cCP
+#print axioms FFVerif.C09.cCP_necessary_transition_rates
+#print axioms FFVerif.C09.negative_rate_not_cCP
+#print axioms FFVerif.C09.cumulant_nonpsd_not_cCP
+#print axioms FFVerif.C09.isEigvals_of_isEigh
+#print axioms FFVerif.C09.exists_eigenvalue_le_diag
+#print axioms FFVerif.C09.verdict_false_of_diag
+#print axioms FFVerif.C09.cCP_test_rejects_negative_rate
+#print axioms FFVerif.Spec.norm_pow_sub_pow_le
+#print axioms FFVerif.Spec.norm_exp_le
+#print axioms FFVerif.Spec.norm_exp_sub_one_sub_le
+#print axioms FFVerif.Spec.tendsto_pow_exp
+#print axioms FFVerif.Spec.tendsto_pow_exp_matrix
+#print axioms FFVerif.Spec.exp_mem_cone_of_gks
+#print axioms FFVerif.C09.exp_gks_generator_cp
+#print axioms FFVerif.C09.exp_lindblad_cp
+#print axioms FFVerif.C09.cumulant_general_opt
+#print axioms FFVerif.C09.exp_cumulant_cp
+#print axioms FFVerif.C09.etm_completely_positive
+#print axioms FFVerif.C09.K1_finset_sum
+#print axioms FFVerif.C09.K2_finset_sum
+#print axioms FFVerif.C09.etm_sum_completely_positive
+#print axioms FFVerif.C09.cpCone_isCPLiou
+#print axioms FFVerif.C09.etm_isCPLiou
+#print axioms FFVerif.C09.etm_sum_isCPLiou
+#print axioms FFVerif.Spec.exists_kraus
+#print axioms FFVerif.Spec.cpCone_isCPChoi
+#print axioms FFVerif.C09.choi_cone
+#print axioms FFVerif.C09.choi_posSemidef_iff_kraus
+#print axioms FFVerif.C09.etm_choi_posSemidef
+#print axioms FFVerif.C09.etm_sum_choi_posSemidef
+#print axioms FFVerif.C09.exp_map_ofReal
+#print axioms FFVerif.C09.etm_real_sum_choi_posSemidef
+#print axioms FFVerif.C09.etm_CP_verdict
+#print axioms FFVerif.C09.exp_lindblad_choi_posSemidef
+#print axioms FFVerif.C10.cumulant_uses_antisymmetric_part
+#print axioms FFVerif.C10.cumulant_single_qubit_uses_antisymmetric_part
+#print axioms FFVerif.C10.cumulant_second_order_from_antisymmetric_part
+#print axioms FFVerif.C10.frequency_shifts_hermitian_part
+#print axioms FFVerif.C10.frequency_shifts_symmetric_part
 #print axioms FFVerif.Pins.pinBasisArrayFinalize
 #print axioms FFVerif.Pins.pinFourElementTraces
 #print axioms FFVerif.Pins.pinErrorTransferMatrix
